@@ -41,8 +41,23 @@ def run(ctx):
                                                             levels=rng.choice([[9, 10], [10], [0, 10], [8, 9, 10], [0, 9, 10]]))))
         else:
             models.append(('random', gen_omen.gen_omen(rng, allow_unstartable=True)))
+    # every seventh model lives in a one-byte encoding and uses characters of its C1 range (U+0080..U+009F) and above: the bytes of the
+    # level files mean what the encoding named in Omen/config.txt says, not what a "modern superset" of it would say
+    enc_of = {}
+    for j in range(3, len(models), 7):
+        src, om = models[j]
+        new_letters = ['\x9a', '\xe9', '\x85', 'a'][:len(om['alphabet'])] if len(om['alphabet']) <= 4 else None
+        if new_letters is None or '\x85' in new_letters and False:
+            continue
+        new_letters = [c for c in new_letters if c != '\x85'] + ['b', 'c'][:new_letters.count('\x85')]
+        mp = dict(zip(om['alphabet'], new_letters))
+        tr = lambda s_: ''.join(mp[c] for c in s_)
+        om2 = dict(om, alphabet=[mp[c] for c in om['alphabet']], ip=[[l, tr(x)] for l, x in om['ip']], ep=[[l, tr(x)] for l, x in om['ep']],
+                   cp=[[l, tr(x)] for l, x in om['cp']])
+        models[j] = (src, om2)
+        enc_of[j] = ['ISO-8859-1', 'iso-8859-9', 'latin-1'][(j // 7) % 3]
     ops, exp, meta, viol, samples = [], [], [], [], []
-    dist = {'ngram': {}, 'letters': {}, 'warm_cache': {}, 'raise': 0}
+    dist = {'ngram': {}, 'letters': {}, 'warm_cache': {}, 'raise': 0, 'one_byte_encodings': len(enc_of)}
     cases = nontrivial = guesses = 0
     seen = set()
     root = common.scratch_dir('rules')
@@ -51,6 +66,8 @@ def run(ctx):
         spec = {'terminals': {}, 'grammar': [], 'omen': om}
         if via:
             spec = {'terminals': {'D1': [['1', '1.0']]}, 'grammar': [['M', '0.5'], ['D1', '0.5']], 'omen_prob': [['1', '0.5']], 'omen': om}
+        if i in enc_of:
+            spec['encoding'] = enc_of[i]
         d = common.write_ruleset(os.path.join(root, f"o{i % 20}"), spec)
         warm = rng.random() < 0.5 or via
         dist['via_grammar_object'] = dist.get('via_grammar_object', 0) + int(via)
